@@ -261,7 +261,7 @@ def compile_tu(tu, inc_hash):
     try:
         r = sh(flags + [srcp] + ([] if tu.get("syntax_only") else ["-o", tmp]), timeout=tu.get("compile_timeout", 900))
     except subprocess.TimeoutExpired:
-        raise MachineryError(f"compiling {tu['name']} timed out")
+        return None, f"error: compiling {tu['name']} against the working tree did not finish within {tu.get('compile_timeout', 900)} s"
     finally:
         if os.path.exists(srcp):
             os.unlink(srcp)
@@ -287,7 +287,9 @@ def run_tu(binp, tu, seed, scale):
         r = subprocess.run([binp] + tu.get("args", []), env=env, stdout=subprocess.PIPE, stderr=subprocess.PIPE,
                            timeout=tu.get("run_timeout", 600))
     except subprocess.TimeoutExpired:
-        raise MachineryError(f"harness {tu['name']} did not finish in time")
+        # a harness that hangs against the working tree is an observation about the tree (reported as a broken tie),
+        # not a failure of the machinery
+        return 124, "", f"harness {tu['name']} did not finish within {tu.get('run_timeout', 600)} s"
     return r.returncode, r.stdout.decode("utf-8", "replace"), r.stderr.decode("utf-8", "replace")
 
 
